@@ -58,23 +58,40 @@ Theorem c14_destroy_progress : forall ha ops,
 Proof. exact aggr_dying_accounting. Qed.
 Print Assumptions c14_destroy_progress.
 
-(* per_source_order: for any number of sources (scripts without YieldEcho), any access sequence and any completion
-   schedule, the values delivered from source j - in delivery order - are a prefix of the values source j's script
-   yields (nothing skipped, repeated, reordered or invented within a source) *)
-Theorem c14_per_source_order : forall ha scs ops, Forall (fun sc => has_echo sc = false) scs ->
-  forall j, j < length scs ->
-  exists rest, dj (deliv ha (build_state scs) ops) j ++ rest = src_values (nth j scs []).
+(* per_source_order: for any number of sources, any scripts (with or without arguments / YieldEcho), any access sequence
+   and any completion schedule, the values delivered from source j - in delivery order - are a prefix of the value
+   sequence source j's script yields when run with the arguments routed to it so far (`Sof`, defined on the script and
+   the received arguments alone; `recvd` = the first argument to every source, each later one to the source returned
+   last): nothing skipped, repeated, reordered or invented within a source *)
+Theorem c14_per_source_order : forall ha scs ops j, j < length scs -> forall fut,
+  exists rest, dj (deliv ha (build_state scs) ops) j ++ rest = Sof scs (recvd ha (build_state scs) ops) j fut.
 Proof. exact aggr_per_source_order. Qed.
 Print Assumptions c14_per_source_order.
 
 (* union: once the aggregate has ended, every source's complete value sequence has been delivered, each value exactly
    once and in the source's order *)
-Theorem c14_union : forall ha scs ops, Forall (fun sc => has_echo sc = false) scs ->
+Theorem c14_union : forall ha scs ops,
   ast (snd (run_from ha (build_state scs) ops)) = AFinal ->
-  forall j, j < length scs ->
-  dj (deliv ha (build_state scs) ops) j = src_values (nth j scs []).
+  forall j, j < length scs -> forall fut,
+  dj (deliv ha (build_state scs) ops) j = Sof scs (recvd ha (build_state scs) ops) j fut.
 Proof. exact aggr_union. Qed.
 Print Assumptions c14_union.
+
+(* for scripts that do not echo their argument the sequence is the script's value list, whatever arguments arrive *)
+Theorem c14_values_without_echo : forall scs R j fut,
+  has_echo (nth j scs []) = false -> Sof scs R j fut = src_values (nth j scs []).
+Proof. exact Sof_noecho. Qed.
+Print Assumptions c14_values_without_echo.
+
+(* ends_iff_all_ended, if-direction: an accepted access after which every source is finished answers with the end of
+   the sequence (End or the remembered exception) and leaves the aggregate finished; with c14_end_means_all_ended this
+   is the "iff" *)
+Theorem c14_end_if_all_ended : forall ha scs ops y a p,
+  let g := snd (run_from ha (build_state scs) ops) in
+  let '(g1, o) := step ha g (OAccess y a p) in
+  o_st o = 0%Z -> all_final (srcs g1) -> ast g1 = AFinal /\ terminal_res (o_res o).
+Proof. exact aggr_end_if_all_ended. Qed.
+Print Assumptions c14_end_if_all_ended.
 
 (* the delivered values are exactly the value answers the consumer observes, in the same order *)
 Theorem c14_delivered_is_observed : forall ha ops g,
@@ -84,18 +101,38 @@ Print Assumptions c14_delivered_is_observed.
 
 (* argument_routing: an access of an aggregate parked at the yield of source i resumes exactly source i, which
    receives exactly that access's argument *)
-Theorem c14_argument_routing : forall ha g y a i s1 b e,
+Theorem c14_argument_routing : forall ha g y a p i s1 b e,
   ast g = AYield i -> idle g = true -> style_ok ha y = true ->
   charge (get_src (srcs g) i) a = Some (s1, b, e) ->
-  o_ev (snd (step ha g (OAccess y a))) = tag_ev i e /\ Forall (arg_is a) e /\ s_arg s1 = a.
+  o_ev (snd (step ha g (OAccess y a p))) = tag_ev i e /\ Forall (arg_is a) e /\ s_arg s1 = a.
 Proof. exact aggr_argument_routing. Qed.
 Print Assumptions c14_argument_routing.
+
+(* RAII balance across all source frames: over any run, for every source j and local id x, constructions =
+   destructions + locals of source j still alive; once the aggregate is destroyed (parked with or without in-flight
+   sources, never started, or finished) every local of every source frame was destroyed exactly as often as it was
+   constructed.  (The destruction of all frames is the single step into ADead, after which every op is rejected:
+   AggrProofs.aggr_dead_rejects.) *)
+Theorem c14_raii_balance : forall ha ops j x,
+  let r := run_from ha agg0 ops in
+  ccount (is_ctor x) j (all_sevents (fst r)) = ccount (is_dtor x) j (all_sevents (fst r)) + gcount x (srcs (snd r)) j /\
+  (ast (snd r) = ADead -> ccount (is_ctor x) j (all_sevents (fst r)) = ccount (is_dtor x) j (all_sevents (fst r))).
+Proof. exact aggr_raii_balance. Qed.
+Print Assumptions c14_raii_balance.
+
+(* the completion ORDER between sources is not fixed by C14: every theorem above quantifies over op lists in which each
+   access / completion may carry an arbitrary preference list that rearranges the completion queue before the loop
+   pops it (`reorder`, always a permutation; [] = the library's FIFO) - so they hold for FIFO, LIFO or any other
+   pop order *)
+Theorem c14_any_pop_order : forall p q, Permutation (reorder q p) q.
+Proof. exact reorder_perm. Qed.
+Print Assumptions c14_any_pop_order.
 
 (* non-vacuity: three sources (one suspending, one throwing) built through the ops, read to the end: the state reached
    by the Source/Build ops is build_state, the union is delivered, the exception comes last *)
 Example c14_nonvacuous :
   let scs := [[IYield 0; IYield 1]; [IAwaitPending 1; IYield 1000]; [IYield 2000; IThrow 7]] in
-  let ops := [OAccess 0 0; OAccess 3 0; OAccess 2 0; OAccess 0 0; OComplete 1 5; OAccess 4 0; OAccess 0 0] in
+  let ops := [OAccess 0 0 []; OAccess 3 0 []; OAccess 2 0 []; OAccess 0 0 []; OComplete 1 5 []; OAccess 4 0 []; OAccess 0 0 []] in
   snd (run_from false agg0 (map OSource scs ++ [OBuild])) = build_state scs /\
   map o_res (fst (run_from false (build_state scs) ops)) = [RVal 0; RVal 2000; RVal 1; RPend; RVal 1000; RExc 7; REndT] /\
   deliv false (build_state scs) ops = [(0%nat, 0%Z); (2%nat, 2000%Z); (0%nat, 1%Z); (1%nat, 1000%Z)] /\
